@@ -1423,6 +1423,122 @@ def o6_3f(h):
               expect_goals=['returned_point_is_constrained_minimiser_within_80_tol_over_a', 'returned_multiplier_within_210_tol_of_kkt_multiplier'])
 
 
+
+# =========================================================================================== O7: derivative closures (also C19)
+def _o7_instance():
+    import jax.numpy as jnp
+
+    def obj(x, p):
+        q, c = p[0], p[1]
+        return (0.5 * (c[0] * x[0] * x[0] + c[1] * x[1] * x[1]) + c[2] * x[0] * x[1] + c[3] * x[0] + c[4] * x[1] + c[5] * x[0] * x[0] * x[0]
+                + q[0] * x[1] + q[1] * q[0] * x[0])
+
+    def con(x, p):
+        q = p[0]
+        return jnp.array([x[0] - q[0], q[1] - x[0] * x[1]])
+    return obj, con
+
+
+def _with_attr(o, name, fn):
+    """call fn(value) with attribute `name` of the object replaced by value (restored afterwards): lets jax differentiate the
+    object's own PUBLIC methods with respect to a piece of its state"""
+    def g(v):
+        old = getattr(o, name)
+        setattr(o, name, v)
+        try:
+            return fn()
+        finally:
+            setattr(o, name, old)
+    return g
+
+
+@obligation(P, 'O7.derivative_closures_at_current_penalty', cap=600)
+def o7_closures(h):
+    """[also serves C19: "the warm-start increment is the exact linear predictor"] every derivative closure of the real
+    ConstrainedObjective equals the jax.jvp / jax.grad of the object's own public value / gradient / constrained_residual at the
+    CURRENT state (lam, kappa) — for all values including kappa != constraintKappa: jacobian_p_vec(x, dp) = d/deps gradient(x; p[0]
+    + eps dp) (the right-hand side of WarmStart.warm_start_increment), hessian_vec and hessian (its operator), jacobian_l_vec,
+    gradient_p, gradient_l, constrained_jacobian_vec, constrained_jacobian_p_vec; same on a BoundConstrainedObjective"""
+    from ..jxh import Case
+    import jax
+    import jax.numpy as jnp
+    CO = _co()
+    from optimism.Objective import Params, param_index_update
+    import optimism.BoundConstrainedObjective as BCO
+    C = CO.ConstrainedObjective
+    h.encoded(C.__init__, C.create_augmented_lagrangian, C.jacobian_p_vec, C.hessian_vec, C.hessian, C.jacobian_l_vec, C.gradient_p, C.gradient_l, C.gradient, C.value,
+              C.constrained_residual, C.constrained_jacobian_vec, C.constrained_jacobian_p_vec, param_index_update, BCO.BoundConstrainedObjective.__init__)
+    h.bounds('n=2 unknowns, m=2 constraints, constraints x0 - q0 >= 0 and q1 - x0*x1 >= 0 with q = p[0] (the parameter slot the warm start differentiates), objective: quadratic + cubic + '
+             'terms in q (6 + 2 symbolic coefficients); x, q, lam, directions dp, vx, vl, vxl: all reals; kappa > 0 and constraintKappa > 0 INDEPENDENT symbolic vectors '
+             '(object constructed with constraintKappa, then .kappa assigned); BoundConstrainedObjective: n=3, bounds on dofs 2 and 0, kappa symbolic (construction value 1/4)')
+    h.assume_note('oracle: jax.jvp / jax.grad of the object\'s own public value(), gradient(), constrained_residual() with the attribute p (slot 0 replaced through the real param_index_update), lam '
+                  'or the argument varied — no second implementation of the augmented Lagrangian; JAX differentiation is trusted',
+                  'the penalty switch l >= k c is differentiated branch-wise by JAX on both sides: the identities are claimed for all states, at the switch both sides use the same branch')
+    missing = [nm for nm, attr in (('jacobian_p2_vec', 'jac_xp2_vec'), ('vec_hessian', 'vec_hess'), ('gradient_and_tangent', 'grad_and_tangent'), ('vec_jacobian_p0', 'vec_jac_xp0'))
+               if not hasattr(C(lambda x, p: 0.0 * x[0], lambda x, p: x, jnp.zeros(1), Params(jnp.zeros(1)), jnp.zeros(1), jnp.ones(1)), attr)]
+    h.outside('second derivatives AT the switch (the penalty is C1 only); methods inherited from Objective whose closures ConstrainedObjective.__init__ never creates (it does not call '
+              'Objective.__init__): %s raise AttributeError on a ConstrainedObjective, so WarmStart.warm_start_increment(index=2) is unavailable for constrained objectives' % ', '.join(missing))
+    obj, con = _o7_instance()
+
+    def F(x, q, c, lam, kappa, ck, dp, vx, vl, vxl):
+        p = Params(q, c)
+        o = C(obj, con, x, p, lam, ck)
+        o.kappa = kappa
+        xl = jnp.hstack((x, lam))
+        out = {}
+        g_of_q = _with_attr(o, 'p', lambda: o.gradient(x))
+        out['jpv'] = (o.jacobian_p_vec(x, dp), jax.jvp(lambda qq: g_of_q(param_index_update(p, 0, qq)), (q,), (dp,))[1])
+        out['hv'] = (o.hessian_vec(x, vx), jax.jvp(lambda z: o.gradient(z), (x,), (vx,))[1])
+        out['Hv'] = (o.hessian(x) @ vx, jax.jvp(lambda z: o.gradient(z), (x,), (vx,))[1])
+        g_of_l = _with_attr(o, 'lam', lambda: o.gradient(x))
+        out['jlv'] = (o.jacobian_l_vec(x, vl), jax.jvp(g_of_l, (lam,), (vl,))[1])
+        v_of_q = _with_attr(o, 'p', lambda: o.value(x))
+        out['gp'] = (o.gradient_p(x)[0], jax.grad(lambda qq: v_of_q(param_index_update(p, 0, qq)))(q))
+        v_of_l = _with_attr(o, 'lam', lambda: o.value(x))
+        out['gl'] = (o.gradient_l(x), jax.grad(v_of_l)(lam))
+        out['cjv'] = (o.constrained_jacobian_vec(xl, vxl), jax.jvp(lambda z: o.constrained_residual(z), (xl,), (vxl,))[1])
+        r_of_q = _with_attr(o, 'p', lambda: o.constrained_residual(xl))
+        out['cjp'] = (o.constrained_jacobian_p_vec(xl, dp), jax.jvp(lambda qq: r_of_q(param_index_update(p, 0, qq)), (q,), (dp,))[1])
+        return out
+    ex = dict(x=onp.array([0.3, -0.2]), q=onp.array([0.1, 0.7]), c=onp.array([1.0, 2.0, 0.3, -0.4, 0.5, 0.2]), lam=onp.array([0.2, 0.1]), kappa=onp.array([4.0, 2.5]),
+              ck=onp.array([1.0, 0.5]), dp=onp.array([0.3, -0.6]), vx=onp.array([0.5, 0.25]), vl=onp.array([-0.2, 0.4]), vxl=onp.array([0.1, 0.2, -0.3, 0.4]))
+    smp = lambda rng: [rng.normal(size=2), rng.normal(size=2), rng.normal(size=6), onp.abs(rng.normal(size=2)), onp.abs(rng.normal(size=2)) + 0.2, onp.abs(rng.normal(size=2)) + 0.2,
+                       rng.normal(size=2), rng.normal(size=2), rng.normal(size=2), rng.normal(size=4)]
+    c1 = Case(h, F, ex, sampler=smp, label='closures')
+    names = dict(jpv='jacobian_p_vec_is_directional_derivative_of_gradient_wrt_p0_at_current_kappa', hv='hessian_vec_is_jvp_of_gradient_at_current_kappa',
+                 Hv='hessian_times_vector_is_jvp_of_gradient_at_current_kappa', jlv='jacobian_l_vec_is_derivative_of_gradient_wrt_lam',
+                 gp='gradient_p_slot0_is_gradient_of_value_wrt_p0', gl='gradient_l_is_gradient_of_value_wrt_lam',
+                 cjv='constrained_jacobian_vec_is_jvp_of_constrained_residual', cjp='constrained_jacobian_p_vec_is_derivative_of_constrained_residual_wrt_p0')
+
+    def spec(i, o):
+        asm = [v_lt(0.0, i['kappa'][k]) for k in range(2)] + [v_lt(0.0, i['ck'][k]) for k in range(2)]
+        return asm, [Eq(o[k][0], o[k][1], name=names[k]) for k in ('jpv', 'hv', 'Hv', 'jlv', 'gp', 'gl', 'cjv', 'cjp')]
+    c1.prove('constrained', spec, cap=120, order=('core', 'nlsat'))
+
+    # ---- BoundConstrainedObjective (inherits the closures; scaled objective, construction penalty 1/4)
+    idx = jnp.array([2, 0])
+
+    def objb(x, p):
+        q, c = p[0], p[1]
+        A = jnp.array([[c[0], c[3], c[4]], [c[3], c[1], c[5]], [c[4], c[5], c[2]]])
+        return 0.5 * x @ (A @ x) + q @ x + q[0] * x[1] * x[2]
+
+    def FB(x0, q, c, lam, kappa, dp, vx):
+        p = Params(q, c)
+        o = BCO.BoundConstrainedObjective(objb, x0, p, idx)
+        o.lam, o.kappa = lam, kappa
+        xb = o.scaling * x0
+        g_of_q = _with_attr(o, 'p', lambda: o.gradient(xb))
+        return dict(jpv=(o.jacobian_p_vec(xb, dp), jax.jvp(lambda qq: g_of_q(param_index_update(p, 0, qq)), (q,), (dp,))[1]),
+                    hv=(o.hessian_vec(xb, vx), jax.jvp(lambda z: o.gradient(z), (xb,), (vx,))[1]))
+    exb = dict(x0=onp.array([0.1, -0.3, 0.2]), q=onp.array([0.5, -1.0, 0.7]), c=onp.array([2.0, 1.5, 3.0, 0.2, -0.1, 0.3]), lam=onp.array([0.2, 0.0]), kappa=onp.array([4.0, 1.0]),
+               dp=onp.array([0.3, -0.6, 0.1]), vx=onp.array([0.5, 0.25, -1.0]))
+    smpb = lambda rng: [rng.normal(size=3), rng.normal(size=3), rng.normal(size=6), onp.abs(rng.normal(size=2)), onp.abs(rng.normal(size=2)) + 0.2, rng.normal(size=3), rng.normal(size=3)]
+    c2 = Case(h, FB, exb, sampler=smpb, label='closures_bound')
+    c2.prove('bound', lambda i, o: ([v_lt(0.0, i['kappa'][k]) for k in range(2)],
+                                    [Eq(o['jpv'][0], o['jpv'][1], name=names['jpv']), Eq(o['hv'][0], o['hv'][1], name=names['hv'])]), cap=120)
+
+
 DESIGNED_NOT_REGISTERED = [
     ('O1.total_residual_instance[bilinear constraint, monolithic]',
      'norm(total_residual) < tol => per-constraint KKT bounds as ONE query on the instance with the bilinear constraint and the cubic objective: unknown at 120 s '
